@@ -12,7 +12,7 @@ from vk import boot, tg, run as vrun
 
 ID = "C07"
 LEVEL = "exploration"
-ASAN = {"thorough": True}
+ASAN = {}  # ASan build is too slow for this space; C09 thorough runs under ASan
 
 
 def rgs(b, vmax):
